@@ -31,7 +31,7 @@ def run(ctx, anchors=None):
     tapmain = tapmain[0]
 
     from . import common as _cm
-    _cm.require_names(tapmain, ["hasher", "internal_pubkey_u256", "root", "ctl", "ctl_ln", "is_even", "serialized_pk", "internal_pubkey", "scripts"], "R06")
+    _cm.require_names(tapmain, ["internal_pubkey_u256", "root", "ctl", "ctl_ln", "is_even", "serialized_pk", "internal_pubkey", "scripts"], "R06")
     # ---- R06.1 tags
     tags = {"HasherTapSighash": "TapSighash", "HasherTapLeaf": "TapLeaf", "HasherTapBranch": "TapBranch", "HasherTapTweak": "TapTweak"}
     for name, tag in sorted(tags.items()):
@@ -135,17 +135,42 @@ def run(ctx, anchors=None):
     ctx.inst(not child_writes, "R06.1", "branch-does-not-modify-children", brc.loc(),
              "the TapBranch constructor writes only m_parent of its children",
              "the TapBranch constructor modifies its children (%s): Prove() then emits the node's own hash instead of the sibling's whenever the two were swapped" % ", ".join(child_writes))
-    # tweak
+    # tweak: the function that holds a HashWriter copied from HasherTapTweak - main itself or a helper main calls
+    holders = []
+    for f_ in fb.funcs.values():
+        if f_.file != "tap.cpp" or f_.body is None:
+            continue
+        for n in f_.nodes():
+            if n["k"] == "decl":
+                for d in n["decls"]:
+                    if d.get("init") is not None and any(y["k"] == "ref" and y.get("dk") == "global" and y["n"] == "HasherTapTweak" for y in walk(d["init"])):
+                        holders.append((f_, d))
     tw = None
-    for n in tapmain.nodes():
-        if n["k"] == "opcall" and n.get("op") == "<<":
-            base, o = streams.flatten_chain(n)
-            if base is not None and base.get("k") == "ref" and base["n"] == "hasher" and len(o) == 2:
-                tw = [astq.estr(x[1]) for x in o]
-    hdecl = [d for n in tapmain.nodes() if n["k"] == "decl" for d in n["decls"] if d["n"] == "hasher"]
-    hsrc = [y["n"] for d in hdecl if d.get("init") for y in walk(d["init"]) if y["k"] == "ref" and y.get("dk") == "global"]
+    hsrc = ["HasherTapTweak"] if holders else []
+    where = tapmain
+    if len(holders) == 1 and holders[0][0] is tapmain:
+        hname = holders[0][1]["n"]
+        for n in tapmain.nodes():
+            if n["k"] == "opcall" and n.get("op") == "<<":
+                base, o = streams.flatten_chain(n)
+                if base is not None and base.get("k") == "ref" and base["n"] == hname and len(o) == 2:
+                    tw = [astq.estr(x[1]) for x in o]
+    elif len(holders) == 1:
+        helper = holders[0][0]
+        where = helper
+        calls_ = [n for n in tapmain.nodes() if n["k"] == "call" and n.get("cid") == helper.id]
+        if len(calls_) == 1 and len(helper.params) == 2 and len(calls_[0]["args"]) == 2:
+            try:
+                houts = [o for o in X.explore(helper, params={helper.params[0]["n"]: ("a", "p0"), helper.params[1]["n"]: ("a", "p1")}) if o.status == "ret"]
+            except symx.Unsupported as e:
+                raise AnalysisBroken("R06.1: %s: %s" % (helper.name, e))
+            want_h = ("ap", "m:GetSHA256", symx.stream(("a", "HasherTapTweak"), (("a", "p0"), "uint256"), (("a", "p1"), "uint256")))
+            if houts and all(o.ret == want_h for o in houts):
+                tw = [astq.estr(a_) for a_ in calls_[0]["args"]]
+            else:
+                tw = [symx.show(o.ret) for o in houts][:1]
     ctx.site()
-    ctx.inst(tw == ["internal_pubkey_u256", "root->m_hash"] and hsrc == ["HasherTapTweak"], "R06.1", "tweak-stream", tapmain.loc(),
+    ctx.inst(tw == ["internal_pubkey_u256", "root->m_hash"] and hsrc == ["HasherTapTweak"], "R06.1", "tweak-stream", where.loc(),
              "tweak = TapTweak(internal key || merkle root)", "tap's tweak hash streams %s into %s; the verifier hashes (internal key, merkle root) with TapTweak" % (tw, hsrc))
     verifier = fb.fn("XOnlyPubKey::ComputeTapTweakHash")
     if len(verifier.params) != 1 or "m_keydata" not in fb.record_fields("XOnlyPubKey"):
@@ -183,16 +208,36 @@ def run(ctx, anchors=None):
     ln = [d for n in tapmain.nodes() if n["k"] == "decl" for d in n["decls"] if d["n"] == "ctl_ln"]
     ok_par = False
     table = {}
-    if ev and ln and ev[0].get("init") is not None and ln[0].get("init") is not None:
+    if ev and ln and ev[0].get("init") is not None:
         e = ev[0]["init"]
         while e is not None and e.get("k") == "cast":
             e = e["e"]
-        c = ln[0]["init"]
-        while c is not None and c.get("k") == "cast":
-            c = c["e"]
-        if e is not None and e.get("k") == "bin" and e["op"] == "==" and c is not None and c.get("k") == "cond" and astq.estr(c["cond"]) == "is_even":
+        # value of the control byte per truth of is_even: `is_even ? a : b` as initialiser, or assignments under if (is_even) / else
+        per = {}
+        defs = []
+        if ln[0].get("init") is not None:
+            defs.append((ln[0]["init"], []))
+        for n in tapmain.nodes():
+            if n["k"] == "assign" and n["lhs"].get("k") == "ref" and n["lhs"]["n"] == "ctl_ln":
+                defs.append((n["rhs"], S._ast_guards_raw(tapmain, n)))
+        for (val, gs) in defs:
+            c = val
+            while c is not None and c.get("k") == "cast":
+                c = c["e"]
+            if c is not None and c.get("k") == "cond" and astq.estr(c["cond"]) == "is_even":
+                per.setdefault(1, set()).add(astq.const_value(c["then"]))
+                per.setdefault(0, set()).add(astq.const_value(c["else"]))
+                continue
+            truth = [t for (g_, t) in gs if astq.estr(S.strip_not(g_)[0]) == "is_even"]
+            neg = [S.strip_not(g_)[1] for (g_, t) in gs if astq.estr(S.strip_not(g_)[0]) == "is_even"]
+            if truth:
+                per.setdefault(1 if (truth[-1] != neg[-1]) else 0, set()).add(astq.const_value(c))
+            else:
+                per.setdefault(0, set()).add(astq.const_value(c))
+                per.setdefault(1, set()).add(astq.const_value(c))
+        if e is not None and e.get("k") == "bin" and e["op"] == "==" and all(len(per.get(t_, ())) == 1 and None not in per[t_] for t_ in (0, 1)):
             even_prefix = astq.const_value(e["rhs"])
-            tv, fv = astq.const_value(c["then"]), astq.const_value(c["else"])
+            tv, fv = list(per[1])[0], list(per[0])[0]
             for prefix in (2, 3):
                 is_even = 1 if prefix == even_prefix else 0
                 byte = tv if is_even else fv
